@@ -75,7 +75,9 @@ META = {
         "(major form x table EOL {SP LF, CR LF, SP CR} x W {[1 2 1],[1 3 2],[0 2 1]}, plus table/hybrid forms whose trailer dictionary follows the keyword on the same line, `trailer <<` and `trailer<<`) per revision; 3-revision histories over a "
         "subset family with major forms deviating from (table, table, table) in <= L3_major_dev revisions (thorough: all; 4 configurations, 2 for vectors with 3 deviations), "
         "thorough also 4-revision histories with <= 2 deviations. extension families: X1 one revision x stream/hybrid forms x W x xref-stream coding {none, Flate, Flate+Predictor 12} x generations {all 0, >0}; X2 two revisions, every user object defined then each one untouched/defined again/freed x 25 major form pairs x coding/generation modes; X3 (and thorough X4) /Prev chains of 3 (4) revisions over objects 10, 11 mixing definitions, free entries, re-definitions after a free, generations and compressed streams, major forms with <= X3_major_dev (X4: 2) deviations. Every prefix of an enumerated history is itself a member of the "
-        "family of shorter histories. long-history family (both tiers): 50/600/1500/3000 revisions, each update redefining one of three content streams in turn, every 500th adding an object and "
+        "family of shorter histories. WG: the newer of two revisions written with every /W triple in {0,1,2} x {2,3,4} x {0,1,2,4} (zero widths = defaults; inexpressible combinations counted under not_judged) "
+        "x 4 stream/hybrid forms x {uncompressed, Flate+Predictor} x 4 define sets (a lone object-stream member has index 0). REF: objects whose whole value is an indirect reference, direct and as first/middle/last/only "
+        "object-stream member, 25 major form pairs. long-history family (both tiers): 50/600/1500/3000 revisions, each update redefining one of three content streams in turn, every 500th adding an object and "
         "redefining the catalog, the last redefining /Info; all tables / all xref streams / alternating table-stream-hybrid; caching on and off; extract_text must show the newest content of every page. damage part: 2 classic-table seeds plus 10 variants of the first seed whose content stream ends in every way (data directly before endstream, data ending in LF/CR/CRLF, blank lines, CR line ends, a single line, EOL LF/CRLF before endstream; /Length exact; quick: the first variant gets every damage kind, the others the operand/keyword/header kinds; thorough: all) x every startxref operand 0..len+8, 8 malformed operands, "
         "misspelt keywords, subsection headers with 1/3/non-numeric fields, every single-byte deletion and 3 single-byte insertions "
         "at every position of every table entry. A case is one document (history x physical form, or seed x damage); non-trivial = "
@@ -164,7 +166,7 @@ def all_phys(r: int, seps: bool = False) -> List[Tuple[Any, ...]]:
     return out
 
 
-def build_history(defs_list, metas, phys, frees_list=None, genmode: str = "zero"):
+def build_history(defs_list, metas, phys, frees_list=None, genmode: str = "zero", values=None):
     """frees_list[r]: numbers whose cross-reference entry in revision r is a free entry.  Generation numbers follow
     7.5.4: freeing n increments its generation, a later definition of n uses the incremented one."""
     revs = []
@@ -180,6 +182,9 @@ def build_history(defs_list, metas, phys, frees_list=None, genmode: str = "zero"
             gen[n] = gen.get(n, 0) + 1
             newfree[n] = gen[n]
         objs, root, info = logical_rev(r, defs, meta, root, info, gen)
+        for (rr, n), v in (values or {}).items():
+            if rr == r and n in objs:
+                objs[n] = v  # family-specific value in place of val(n, r)
         live = (live | set(objs)) - set(frees)
         form, pack, eol, W = ph[:4]
         revs.append({"objs": objs, "root": root, "info": info, "form": form, "pack": pack, "eol": eol, "W": W,
@@ -369,10 +374,10 @@ def freed_kinds(obs: Dict[str, Any], exp: Dict[str, Any]) -> Any:
 
 
 def check_document(st, defs_list, metas, phys, configs, diff: Dict[Any, Any], sample: bool = False,
-                   frees_list=None, genmode: str = "zero") -> None:
+                   frees_list=None, genmode: str = "zero", values=None) -> None:
     assert configs[0] == REF_CONFIG
     try:
-        revs = build_history(defs_list, metas, phys, frees_list, genmode)
+        revs = build_history(defs_list, metas, phys, frees_list, genmode, values)
         data, model = write_history(revs)
     except NotExpressible:
         st.not_judged["physical form cannot express the revision"] += 1
@@ -957,6 +962,8 @@ def shards(tier):
     if b["X4"]:
         v4 = [v for v in state_vectors((10, 11)) if v[1] != "f"]
         out += [("X4", i, j, k) for i in range(len(v4)) for j in range(len(v4)) for k in range(len(v4))]
+    out += [("WG", i) for i in range(len(W_GRID))]
+    out += [("REF", i) for i in range(len(REF_POSITIONS))]
     out += [("LONG", nrev, fm) for nrev in LONG_REVISIONS for fm in LONG_FORMS]
     for which, kinds in seed_ids(tier):
         n = seed_doc(which)[1]["len"] + 9
@@ -987,6 +994,45 @@ def split_vector(users, vec):
 
 def phys5(m, xf, W=WS[0], eol=EOLS[0]):
     return (m[0], m[1], eol, W, xf)
+
+
+W_GRID = tuple((a, b, c) for a in (0, 1, 2) for b in (2, 3, 4) for c in (0, 1, 2, 4))
+
+
+def fam_wgrid(st, tier, W, diff):
+    """every /W triple (type width 0..2, second field 2..4, third field 0, 1, 2, 4; a zero width means the default:
+    type 1 / value 0) on the newer revision of a two-revision history, for stream and hybrid forms with and without an
+    object stream, one or three redefined objects (a lone member has index 0, the only index W[2]=0 can express)"""
+    users = BOUNDS[tier]["X_users"][:3]
+    for d1 in ((users[1],), (users[2],), (users[0],), tuple(users)):
+        for m0 in (MAJOR[0], MAJOR[2]):
+            for m1 in MAJOR[1:]:
+                for xf in (None, "png"):
+                    check_document(st, [tuple(users), d1], ["none", "none"], [phys5(m0, None), phys5(m1, xf, W)],
+                                   [CONFIGS_SMALL[0], CONFIGS_SMALL[3]], diff,
+                                   sample=(W == (1, 2, 0) and d1 == (users[1],) and m1 == MAJOR[2] and m0 == MAJOR[0] and xf is None))
+
+
+REF_POSITIONS = ("first", "middle", "last", "only")
+
+
+def fam_bareref(st, tier, pos, diff):
+    """objects whose whole value is an indirect reference ("3 0 R"), stored directly and as first / middle / last / only
+    member of an object stream, in the initial body and in an update"""
+    users = (10, 11, 13)
+    others = {10: {"K": N("ten")}, 11: 1100, 13: b"thirteen"}
+    d1 = users if pos != "only" else (11,)
+    refobj = {"first": 10, "middle": 11, "last": 13, "only": 11}[pos]
+    values: Dict[Tuple[int, int], Any] = {(0, n): v for n, v in others.items()}
+    values[(0, 11)] = Ref(2)  # a bare reference in the middle of the initial body's members
+    for n in d1:
+        values[(1, n)] = Ref(3) if n == refobj else (others[n] if not isinstance(others[n], int) else others[n] + 1)
+    if pos == "last":
+        values[(0, 13)] = Ref(1)
+        values[(0, 11)] = 1100
+    for m0, m1 in itertools.product(MAJOR, MAJOR):
+        check_document(st, [users, d1], ["none", "none"], [major_phys(m0), major_phys(m1)], CONFIGS_SMALL, diff, values=values,
+                       sample=(pos == "first" and m0 == MAJOR[0] and m1 == MAJOR[2]))
 
 
 def fam_x1(st, tier, defs, diff):
@@ -1085,6 +1131,10 @@ def run_shard(shard, tier, st):
     elif fam == "X4":
         v4 = [v for v in state_vectors((10, 11)) if v[1] != "f"]
         fam_xn(st, tier, 4, (10, 11), [v4[i] for i in shard[1:]], ("none", "recat", "none", "newroot"), MODES6[1::2] + MODES6[:1], 2, diff)
+    elif fam == "WG":
+        fam_wgrid(st, tier, W_GRID[shard[1]], diff)
+    elif fam == "REF":
+        fam_bareref(st, tier, REF_POSITIONS[shard[1]], diff)
     elif fam == "LONG":
         fam_long(st, tier, shard[1], shard[2])
     elif fam == "DMG":
